@@ -26,6 +26,7 @@ TECHNIQUE = ('differential testing on transliterated wrapper source: '
              'generated handle life-cycle histories and NULL-return fault '
              'injection against a reference-counting stub library')
 RULE = (
+    'ZDD: the hand-written recursions of cudd_zdd.pyx (_exist, _forall, _disjoin, _conjoin, _compose, _find_or_add, their roots and _c_ entry points, _dict_to_zdd) are executed on a structural reference-counting model of the CUDD ZDD layer: all functions x cubes for the quantifiers (result compared with the truth-table oracle: these are what apply uses), all / sampled pairs for the others, and for sampled calls the i-th unique-table insertion fails for every i, once as out-of-memory (must raise) and once as reordering (must retry); after dropping all handles every reference must be released. '
     'D+E: for each of dd/cudd.pyx, cudd_zdd.pyx, sylvan.pyx, buddy.pyx the '
     'body of apply is cut out of the source, rewritten mechanically into '
     'Python and executed on stub libraries whose nodes are truth tables of '
@@ -75,6 +76,18 @@ def plan(tier, seed):
                           samples=600 if tier == 'thorough' else 120))
         specs.append(dict(kind='lifecycle', wrapper=w, seed=seed * 10 + 1,
                           examples=3000 if tier == 'thorough' else 400))
+    # the hand-written ZDD recursions of cudd_zdd.pyx
+    for entry in ('_c_exist', '_c_forall'):
+        specs.append(dict(kind='zdd', mode='all', entry=entry, part=0,
+                          parts=1, seed=seed))
+    parts = 4
+    for entry in ('_c_disjoin', '_c_conjoin'):
+        for p in range(parts):
+            specs.append(dict(kind='zdd', mode='all', entry=entry, part=p,
+                              parts=parts, seed=seed))
+    for p in range(8 if tier == 'thorough' else 4):
+        specs.append(dict(kind='zdd', mode='faults', part=p, seed=seed,
+                          samples=2500 if tier == 'thorough' else 400))
     return specs
 
 
@@ -393,13 +406,165 @@ def run_lifecycle(spec, out):
                     not_reached=M.not_reached), force=True)
 
 
+# ------------------------------------------------ cudd_zdd.pyx recursions
+ZDD_ENTRY = ['_c_exist', '_c_forall', '_c_disjoin', '_c_conjoin',
+             '_c_compose']
+
+
+def zdd_case(Z, entry, a, b, c, fail_at=None, fail_kind='oom'):
+    """Run one entry point of cudd_zdd.pyx on a fresh structural ZDD
+    manager.  Returns (creations, outcome)."""
+    mgr = Z.new_manager()
+    names = Z.names
+    n = Z.n
+    F = tt.full(n)
+    Z.dealloc_errors = 0
+    held = []
+    want = None
+    u = Z.fn(a & F)
+    held.append(u)
+    if entry in ('_c_exist', '_c_forall'):
+        qv = [names[j] for j in range(n) if (b >> j) & 1]
+        js = [j for j in range(n) if (b >> j) & 1]
+        args = (qv, u)
+        want = (tt.exists(a & F, n, js) if entry == '_c_exist'
+                else tt.forall(a & F, n, js))
+    elif entry in ('_c_disjoin', '_c_conjoin'):
+        v = Z.fn(b & F)
+        held.append(v)
+        args = (u, v)
+    else:
+        d = {}
+        for j in range(n):
+            if (c >> j) & 1:
+                g = Z.fn((b * (j + 3) + c) & F)
+                held.append(g)
+                d[names[j]] = g
+        if not d:
+            g = Z.fn(b & F)
+            held.append(g)
+            d[names[0]] = g
+        args = (u, d)
+    base_creations = mgr.creations
+    mgr.fail_at = fail_at
+    mgr.fail_kind = fail_kind
+    r = None
+    raised = None
+    try:
+        r = Z.call(entry, *args)
+    except Exception as e:
+        raised = e
+    mgr.fail_at = None
+    used = mgr.creations - base_creations
+    if raised is not None:
+        tb_ok = isinstance(raised, (AssertionError, RuntimeError,
+                                    ValueError, MemoryError))
+        require(fail_at is not None and fail_kind == 'oom' and tb_ok,
+                'zdd.unexpected_exception',
+                dict(entry=entry, error=repr(raised)[:200]))
+    else:
+        require(r is not None and r.node is not None, 'zdd.no_result')
+        if want is not None:
+            got = mgr.family(r.node)
+            require(got == want, 'zdd.quantifier_wrong_result',
+                    dict(entry=entry, got=got, want=want))
+        # exactly one reference for the handle handed to Python
+        exp = {}
+        for f in held + [r]:
+            if not mgr.is_const(f.node):
+                exp[f.node.uid] = exp.get(f.node.uid, 0) + 1
+        ext = {x.uid: x for x in mgr.unique.values()}
+        for uid, k in exp.items():
+            require(ext[uid].ref >= k, 'zdd.handle_not_referenced',
+                    dict(entry=entry))
+        f = None
+    args = None
+    raised = None
+    r = None
+    g = v = u = d = None
+    held = None
+    live = mgr.live_refs()
+    if live:
+        gc.collect()        # (only needed if something was in a cycle)
+        live = mgr.live_refs()
+    require(not live, 'zdd.temporary_reference_leaked',
+            dict(entry=entry, live=live, fail_at=fail_at, kind=fail_kind))
+    require(not mgr.negative, 'zdd.counter_negative', dict(entry=entry))
+    require(Z.dealloc_errors == 0, 'zdd.dealloc_raised',
+            dict(error=getattr(Z, 'last_dealloc_error', None)))
+    return used
+
+
+def run_zdd(spec, out):
+    try:
+        Z = P.ZddModel(3)
+    except P.NotReached as e:
+        from ..env import HarnessError
+        raise HarnessError(f'cudd_zdd: {e}')
+    missing = [f for f in ZDD_ENTRY if f not in Z.reached]
+    out.note(f'cudd_zdd recursions: reached {Z.reached}; '
+             f'not reached {Z.not_reached}')
+    if missing:
+        from ..env import HarnessError
+        raise HarnessError(f'cudd_zdd: not reached {Z.not_reached}')
+    base = dict(kind='zddcase')
+    cnt = nt = 0
+    r = random.Random(f'c19z:{spec["seed"]}:{spec["part"]}')
+    if spec['mode'] == 'all':
+        entry = spec['entry']
+        for a in range(256):
+            bs = range(8) if entry in ('_c_exist', '_c_forall') \
+                else range(spec['part'], 256, spec['parts'])
+            for b in bs:
+                case = dict(base, entry=entry, a=a, b=b, c=0)
+                out.guard(case, lambda: zdd_case(Z, entry, a, b, 0))
+                cnt += 1
+                nt += 1 if a not in (0, 255) and b else 0
+    else:
+        for k in range(spec['samples']):
+            entry = ZDD_ENTRY[k % len(ZDD_ENTRY)]
+            a, b, c = r.randrange(256), r.randrange(256), r.randrange(8)
+            if entry in ('_c_exist', '_c_forall'):
+                b %= 8
+            case = dict(base, entry=entry, a=a, b=b, c=c)
+            res = []
+            if not out.guard(case, lambda: res.append(
+                    zdd_case(Z, entry, a, b, c))):
+                cnt += 1
+                continue
+            cnt += 1
+            used = res[0]
+            for i in range(1, used + 1):
+                for kind in ('oom', 'reorder'):
+                    c2 = dict(case, fail_at=i, fail_kind=kind)
+                    out.guard(c2, lambda: zdd_case(
+                        Z, entry, a, b, c, i, kind))
+                    cnt += 1
+                    nt += 1
+    out.count(cnt, nt)
+    out.sample(dict(base, entry='_c_compose', a=0x96, b=0xe8, c=2,
+                    fail_at=1, fail_kind='reorder',
+                    reached=Z.reached, not_reached=Z.not_reached),
+               force=True)
+    out.exhaustive = (spec['mode'] == 'all')
+
+
 def run(spec, out):
+    if spec['kind'] == 'zdd':
+        return run_zdd(spec, out)
     dict(apply=run_apply, faults=run_faults, lifecycle=run_lifecycle)[
         spec['kind']](spec, out)
 
 
 def replay_into(case, out):
     k = case['kind']
+    if k == 'zddcase':
+        Z = P.ZddModel(3)
+        out.guard(case, lambda: zdd_case(
+            Z, case['entry'], case['a'], case['b'], case['c'],
+            case.get('fail_at'), case.get('fail_kind', 'oom')))
+        out.count(1, 0)
+        return
     M = P.Model(case['wrapper'])
     if k == 'applycase':
         def body():
